@@ -27,6 +27,7 @@ class CatModel:
         self._index_types()
         self.ring_cap = self._ring_cap()
         self.cb_havoc = True
+        self.overrides = {}
 
     # ------------------------------------------------------------------ types
     def _index_types(self):
@@ -69,6 +70,13 @@ class CatModel:
             raise Unsupported('unknown location %r' % (loc,))
         name = 'f:' + '.'.join(str(x) for x in loc[1:])
         if it.prog.int_type(qt) is not None:
+            if loc[:3] == ('S', 'unsolicited_fsm', 'unsolicited_cmd_buffer') and loc[-1] == 'type':
+                # queued event kinds are READ or TEST (the trigger API's contract)
+                en = it.prog.enums
+                v = it.fresh(s, name, None, (min(en['CAT_CMD_TYPE_READ'], en['CAT_CMD_TYPE_TEST']), max(en['CAT_CMD_TYPE_READ'], en['CAT_CMD_TYPE_TEST'])))
+                for x in range(min(en['CAT_CMD_TYPE_READ'], en['CAT_CMD_TYPE_TEST']) + 1, max(en['CAT_CMD_TYPE_READ'], en['CAT_CMD_TYPE_TEST'])):
+                    s.facts.assume_ne(v, x)
+                return v
             return it.fresh(s, name, qt)
         q = qt.replace('const ', '').strip()
         if loc == ('S', 'desc'):
@@ -80,7 +88,14 @@ class CatModel:
         if loc == ('S', 'mutex'):
             return ('obj', 'MUTEX')
         if 'struct cat_command' in q and '*' in q:
-            return ('obj', {'cmd': 'CMD'}.get(loc[-1], 'CMD') if loc[1] != 'unsolicited_fsm' else ('UCMD' if len(loc) == 3 else 'RING%s.cmd' % (loc[3],)))
+            if loc[1] != 'unsolicited_fsm':
+                return ('obj', 'CMD')
+            if len(loc) == 3:
+                return ('obj', 'UCMD')
+            # a queued event: the trigger API is handed a valid command (asserted by the library)
+            nm = 'EV[%s]' % (loc[3],)
+            s.pnull[nm] = False
+            return ('obj', nm)
         if 'struct cat_variable' in q:
             return ('obj', 'VAR' if loc[1] != 'unsolicited_fsm' else 'UVAR')
         if 'char' in q and '*' in q:
@@ -121,6 +136,11 @@ class CatModel:
             v = it.fresh(s, name, q)
             if field == 'buf_size' and obj == 'DESC':
                 s.facts.assume_le(Lin.atom(name).scale(-1), -MIN_CMD_CAP)
+            if field in ('cmd_group_num', 'cmd_num'):
+                # cat_init's contract: at least one group, at least one command per group
+                s.facts.assume_le(Lin.atom(name).scale(-1), -1)
+            if field == 'data_size':
+                s.facts.assume_le(Lin.atom(name).scale(-1), -1)
             return v
         if '(*)' in q0 or q0.endswith('_handler'):
             rec = it.prog.field_by_id.get(n.get('referencedMemberDecl'), (None,))[0]
@@ -225,6 +245,11 @@ class CatModel:
             lo = s.facts.lower(off)
             hi_ok = s.facts.le(off.addc(width).sub(cap), 0)
             ok = (lo >= 0) and (hi_ok is True)
+            if not ok and lo >= 0 and kind == 'read' and width == 1:
+                # reading at or below a NUL that is known to lie inside the capacity
+                T = self.nul_index(region, s, it)
+                if T is not None and s.facts.le(off.sub(T), 0) is True:
+                    ok = True
             if not ok and region[0] == 'BUF':
                 ok = lane = self._lane_lemma(off, s, it)
             if not ok and lo >= 0 and hi_ok is False:
@@ -281,6 +306,10 @@ class CatModel:
                 continue
             if it.prog.int_type(qt) is None:
                 out.append((s1, TOP))
+                continue
+            T = self.nul_index(region, s1, it) if region[0] != 'dstr' else None
+            if T is not None and width == 1 and s1.facts.eq(off.sub(T), 0) is True:
+                out.append((s1, Lin.c(0)))
                 continue
             v = self.new_byte(s1, it, n, region, off, qt)
             self.hook_read(region, off, v, s1, it, n)
@@ -361,6 +390,38 @@ class CatModel:
     def hook_read(self, region, off, v, s, it, n):
         pass
 
+    def nul_index(self, region, s, it):
+        """index (Lin) of a NUL known to lie inside region, or None"""
+        if region[0] == 'lit':
+            t = region[1]
+            z = t.find('\0')
+            return Lin.c(len(t) if z < 0 else z)
+        if region[0] == 'dstr':
+            return it.fresh(s, 'strlen(%s)' % region[1], None, (0, 1 << 62))
+        return s.ghost.get(self.term_key(region))
+
+    def refined(self, s, form, it):
+        # returns False when the refinement contradicts the buffer typestate (path infeasible)
+        """scan lemma: a byte read at index i of a buffer with a NUL at index T (i <= T) that turns
+        out to be non-zero cannot be the NUL, hence i <= T-1."""
+        if not s.prov:
+            return True
+        for a, _ in form.terms:
+            pv = s.prov.get(a)
+            if pv is None:
+                continue
+            region, off = pv
+            if s.facts.eq(Lin.atom(a), 0) is not False:
+                continue
+            T = self.nul_index(region, s, it)
+            if T is None:
+                continue
+            d = off.sub(T)
+            if s.facts.le(d, 0) is True and s.facts.le(d, -1) is not True:
+                if not s.facts.assume_le(d, -1):
+                    return False      # the byte at the NUL's own index cannot be non-zero
+        return True
+
     def set_term(self, region, idx, s):
         s.ghost[self.term_key(region)] = idx
 
@@ -368,9 +429,11 @@ class CatModel:
         g0 = ghosts[0]
         out = {}
         for k, v in g0.items():
+            if is_lin(v):
+                continue
             if all(g.get(k) == v for g in ghosts):
                 out[k] = v
-            elif isinstance(k, tuple) and k[0] == 'term' and all(k in g for g in ghosts):
+            elif False and isinstance(k, tuple) and k[0] == 'term' and all(k in g for g in ghosts):
                 # terminator index differs: is it the value of a joined location? keep if it equals
                 # the same location's value in every state (e.g. the cursor itself)
                 locs = None
@@ -398,7 +461,43 @@ class CatModel:
 
     # ---------------------------------------------------------------- overrides
     def override(self, fname):
-        return None
+        return self.overrides.get(fname)
+
+    # flat command index -> (group, command): summaries of the two lookup helpers.  Their bodies
+    # are checked against these summaries by the FLATIDX rule (rules/flatidx.py).
+    def _flat_ob(self, idx, s, it, n):
+        loc = ('S', 'commands_num')
+        if loc not in s.mem:
+            s.mem[loc] = self.initial(loc, s, it, n)
+        cn = s.mem[loc]
+        ok = is_lin(cn) and s.facts.lower(idx) >= 0 and s.facts.le(idx.sub(cn), -1) is True
+        s.ev('ob', n, ob='index', ok=ok, array='COMMANDS', index=idx, cap=cn)
+
+    def ov_cmd_by_index(self, it, fn, args, s, n):
+        idx = args[1]
+        self._flat_ob(idx, s, it, n)
+        name = 'CMDS[%s]' % lin_repr(idx)
+        s.pnull[name] = False
+        s.ev('sel', n, index=idx, obj=name, by=fn['name'])
+        return [(s, ('obj', name))]
+
+    def ov_disable_by_index(self, it, fn, args, s, n):
+        idx = args[1]
+        self._flat_ob(idx, s, it, n)
+        g = it.fresh(s, 'GRPS[%s].disable' % lin_repr(idx), 'bool')
+        c = it.fresh(s, 'CMDS[%s].disable' % lin_repr(idx), 'bool')
+        s.ev('sel', n, index=idx, obj='CMDS[%s]' % lin_repr(idx), by=fn['name'])
+        outs = []
+        t, f = it.truth(g, s)
+        if t is not None:
+            outs.append((t, Lin.c(1)))
+        if f is not None:
+            t2, f2 = it.truth(c, f)
+            if t2 is not None:
+                outs.append((t2, Lin.c(1)))
+            if f2 is not None:
+                outs.append((f2, Lin.c(0)))
+        return outs
 
     # ------------------------------------------------------------------ library
     def library(self, name, args, s, it, n):
@@ -658,7 +757,6 @@ class CatModel:
             s.mem[loc] = self.fresh_site(s, it, n, 'H@ring_%s' % f[-5:], 'unsigned long', (0, hi))
         for k in [k for k in s.mem if k[:3] == ('S', 'unsolicited_fsm', 'unsolicited_cmd_buffer')]:
             del s.mem[k]
-        s.ghost['ring_nonempty_possible'] = True
         # may request hold exit: only effective while the hold flag is set
         hf = s.mem.get(('S', 'hold_state_flag'))
         if hf is None or not (is_lin(hf) and hf.is_const() and hf.const == 0):
